@@ -741,6 +741,51 @@ func (cs *dcase) containment(outcome string) {
 	}
 }
 
+/**************** panic(nil) — outside the model, evaluated with the oracle only ****************/
+
+// nilPanic serves one request whose handler executes panic(nil) on a router with an OnPanic hook that sets 500.
+// With GODEBUG=panicnil=1 (the default when the main module's go.mod says go < 1.21 — rux declares go 1.19, and
+// so does this harness) recover() returns nil for such a panic: rux's deferred function then neither runs the
+// hook nor commits the header, and the panic is silently swallowed.  With the Go >= 1.21 semantics the value
+// is a *runtime.PanicNilError and everything works.  The model does not cover it (it answers `unsupported`).
+func nilPanic() (ans string, oracle []string) {
+	r := rux.New()
+	hooks := 0
+	var got interface{}
+	r.OnPanic = func(c *rux.Context) {
+		hooks++
+		got, _ = c.Get(rux.CTXRecoverResult)
+		c.SetStatus(500)
+	}
+	var nilValue interface{}
+	r.GET("/x", func(c *rux.Context) { panic(nilValue) })
+	cs := newDcase()
+	cs.seq = 1
+	rec := &recWriter{cs: cs, seq: 1, hdr: http.Header{}}
+	escaped := false
+	func() {
+		defer func() {
+			if v := recover(); v != nil {
+				escaped = true
+			}
+		}()
+		r.ServeHTTP(rec, httptest.NewRequest("GET", "/x", nil))
+	}()
+	ans = fmt.Sprintf("escaped=%s hooks=%d log=%s", b2s(escaped), hooks, joinOrDash(cs.log))
+	if escaped {
+		oracle = append(oracle, "C09 panic(nil): hook installed but the panic escaped ServeHTTP")
+	}
+	if hooks != 1 {
+		oracle = append(oracle, fmt.Sprintf("C09 panic(nil): the hook ran %d times (recover() returned nil: GODEBUG panicnil=1 semantics)", hooks))
+	} else if got == nil {
+		oracle = append(oracle, "C09 panic(nil): the hook found no value under "+rux.CTXRecoverResult)
+	}
+	if len(cs.log) != 1 || cs.log[0] != "WH:u:500" {
+		oracle = append(oracle, "C09 panic(nil): the response was not committed with the hook's status, writer log: "+joinOrDash(cs.log))
+	}
+	return
+}
+
 /**************** Run ****************/
 
 func runDispatch(ops []string) (ans []string, oracle []string) {
@@ -755,6 +800,11 @@ func runDispatch(ops []string) (ans []string, oracle []string) {
 			}()
 			if len(f) == 0 {
 				return "bad-op"
+			}
+			if f[0] == "nilpanic" {
+				a, o := nilPanic()
+				cs.oracle = append(cs.oracle, o...)
+				return a
 			}
 			if f[0] == "new" {
 				lost := cs.lostSeen
@@ -819,7 +869,7 @@ func (g *dgen) act() string {
 		return "st:" + hx(r.Pick(dispKeys)) + ":" + hx(r.Pick(dispVals))
 	case x < 48:
 		return "ae:" + hx(r.Pick([]string{"e1", "e2", ""}))
-	case x < 56:
+	case x < 53:
 		return "sp:" + hx(r.Pick([]string{"p", "q", "id"})) + ":" + hx(r.Pick(dispVals))
 	case x < 62:
 		return "ab"
@@ -1015,6 +1065,8 @@ var keyRec = hx(rux.CTXRecoverResult)
 func (panicEngine) Corpus() []Case {
 	boom := "pn:s." + hx("boom")
 	return []Case{
+		// known finding K-C09-panicnil (outside the model): panic(nil) under GODEBUG=panicnil=1 is not contained
+		{Ops: []string{"nilpanic"}, Tag: "known:panicnil"},
 		// F8: a hook that only sets a status; panic in the main handler of a one-handler route
 		{Ops: []string{"new 0 0", "route 1 s 0 " + boom, "onpanic ss:500", "serve r 1 - -", "serve r 1 - -"}},
 		// hook does nothing => 200; hook status+body
@@ -1085,6 +1137,14 @@ func (panicEngine) Gen(r *Rand, tier string) Case {
 	for i := 0; i < np; i++ {
 		s := slots[r.Intn(len(slots))]
 		*s.h = insertAt(*s.h, r.Intn(len(*s.h)+1), "pn:"+r.Pick(dispPVals))
+	}
+	// PanicsHandler somewhere inside a route's chain (first route middleware), not only as the first global
+	if r.Chance(1, 10) {
+		rt := &c.routes[r.Intn(len(c.routes))]
+		hs := append([][]string{}, rt.hs[:rt.ng]...)
+		hs = append(hs, []string{"PH"})
+		rt.hs = append(hs, rt.hs[rt.ng:]...)
+		tag += "+routePH"
 	}
 	ops := c.ops()
 	n := r.Range(2, 6)
